@@ -47,12 +47,11 @@ Eff(b)      == IF b = "unset" THEN "v0" ELSE b          \* CidBuilder(): nil fie
 \* as-built: slices.SortStableFunc by strings.Compare(name).  Written as the position every element
 \* ends up at under a stable sort (number of elements that must precede it), not recursively:
 \* TLC re-evaluates lazily passed sequence arguments of recursive operators (exponential cost).
-Before(s, j, i) == \/ Rank(NameOf(s[j])) < Rank(NameOf(s[i]))
-                   \/ (Rank(NameOf(s[j])) = Rank(NameOf(s[i])) /\ j < i)
-Pos(s, i) == Cardinality({j \in 1..Len(s) : Before(s, j, i)}) + 1
-SortLinks(s) == LET pos == [i \in 1..Len(s) |-> Pos(s, i)]      \* functions are built once (eagerly)
-                    inv == [k \in 1..Len(s) |-> CHOOSE i \in 1..Len(s) : pos[i] = k]
-                IN  [k \in 1..Len(s) |-> s[inv[k]]]
+SortLinks(s) == LET n   == Len(s)                             \* (functions are built once, eagerly)
+                    rk  == [i \in 1..n |-> Rank(NameOf(s[i]))]
+                    pos == [i \in 1..n |-> Cardinality({j \in 1..n : rk[j] < rk[i] \/ (rk[j] = rk[i] /\ j < i)}) + 1]
+                    inv == [k \in 1..n |-> CHOOSE i \in 1..n : pos[i] = k]
+                IN  [k \in 1..n |-> s[inv[k]]]
 
 \* property side: declarative
 ByName(s, n) == SelectSeq(s, LAMBDA l : NameOf(l) = n)
